@@ -202,7 +202,9 @@ class FnSplicer:
         if spec.get('rev_find'):
             self._r11(spec['rev_find'])
         if spec.get('fwd_find_index'):
-            self._r19()
+            # 'if_present': a body that no longer contains the adapter chain is taken verbatim (no desugaring needed)
+            if spec['fwd_find_index'] != 'if_present' or self._has_seq(['.', 'enumerate', '(', ')', '.', 'find', '(']):
+                self._r19()
         if spec.get('collect_string'):
             self._r20()
         if spec.get('filter_map_collect'):
@@ -683,20 +685,41 @@ class FnSplicer:
         if found != 1:
             raise ExtractError(f'{self._where()}: R11 needs exactly one `x.iter().enumerate().rev().find(|(i, c)| ..)` (found {found})')
 
+    def _has_seq(self, toks):
+        rf, it = self.rf, self.it
+        for ci in range(it.body[0] + 1, it.body[1] - len(toks)):
+            if [rf.ct(ci + k).text for k in range(len(toks))] == toks:
+                return True
+        return False
+
     def _r19(self):
-        """R19: `E.iter().enumerate().find(|(_, C)| PRED).map(|(I, _)| I)` (E a plain identifier naming a slice) =>
-        `{ let mut __j: usize = 0; let mut __hit: Option<usize> = None; loop { if __j >= E.len() { break; } let C = &&E[__j];
+        """R19: `E.iter().enumerate().find(|(_, C)| PRED).map(|(I, _)| I)` (E a place expression naming a slice: an identifier followed by
+        index / range-index / field projections) =>
+        `{ let __sl = &E; let mut __j: usize = 0; let mut __hit: Option<usize> = None; loop { if __j >= __sl.len() { break; } let C = &&__sl[__j];
            if PRED { __hit = Some(__j); break; } __j += 1; } __hit }`
         -- the definition of enumerate + find + map-to-the-index on slice::Iter: the index of the first element that satisfies PRED
-        (the closure parameter of `find` is a `&(usize, &T)`, so C is a `&&T`). PRED is left untouched."""
+        (the closure parameter of `find` is a `&(usize, &T)`, so C is a `&&T`). E is evaluated once, first (its slicing bounds check stays
+        an obligation); PRED is left untouched."""
         rf, it = self.rf, self.it
         ci = it.body[0] + 1; end = it.body[1]; found = 0
         want = ['.', 'iter', '(', ')', '.', 'enumerate', '(', ')', '.', 'find', '(', '|', '(']
         while ci < end:
-            if rf.ct(ci).kind == 'ident' and rf.ct(ci - 1).text != '.' and [rf.ct(ci + k).text for k in range(1, len(want) + 1)] == want:
-                E = rf.ct(ci).text
-                op = ci + 11; cp = rf.match(op)
-                tp = ci + 13; tc = rf.match(tp)
+            if rf.ct(ci).text == '.' and [rf.ct(ci + k).text for k in range(0, len(want))] == want and (rf.ct(ci - 1).kind == 'ident' or rf.ct(ci - 1).text == ']'):
+                # walk back over the place expression
+                st = ci - 1
+                while True:
+                    if rf.ct(st).text == ']':
+                        st = rf.match(st) - 1
+                        continue
+                    if rf.ct(st).kind == 'ident' and rf.ct(st - 1).text == '.' and (rf.ct(st - 2).kind == 'ident' or rf.ct(st - 2).text == ']'):
+                        st -= 2
+                        continue
+                    break
+                if rf.ct(st).kind != 'ident' or rf.ct(st - 1).text == '.':
+                    raise ExtractError(f'{self._where()}: R19: the receiver of `.iter().enumerate().find(..)` is not a place expression')
+                E = rf.spaced(st, ci).strip()
+                op = ci + 10; cp = rf.match(op)
+                tp = ci + 12; tc = rf.match(tp)
                 inner = [rf.ct(k).text for k in range(tp + 1, tc)]
                 if len(inner) != 3 or inner[0] != '_' or inner[1] != ',' or rf.ct(tc + 1).text != '|':
                     raise ExtractError(f'{self._where()}: R19 needs a closure `|(_, c)| ..`')
@@ -707,12 +730,12 @@ class FnSplicer:
                 if tail[:6] != ['.', 'map', '(', '|', '(', tail[5]] or tail[6:12] != [',', '_', ')', '|', tail[5], ')'] or rf.ct(cp + 6).kind != 'ident':
                     raise ExtractError(f'{self._where()}: R19 needs `.map(|(i, _)| i)` after the find (found {" ".join(tail)})')
                 mp = cp + 12
-                before = rf.spaced(ci, mp + 1)
-                cl = f'invariant_except_break __hit is None,\ninvariant __j <= {E}@.len(),\nensures __hit matches Some(__h) ==> __h < {E}@.len(),\ndecreases {E}@.len() - __j,\n'
-                after = (f'{{ let mut __j: usize = 0; let mut __hit: Option<usize> = None; loop\n{cl}{{ if __j >= {E}.len() {{ break; }} let {C} = &&{E}[__j]; '
+                before = rf.spaced(st, mp + 1)
+                cl = f'invariant_except_break __hit is None,\ninvariant __j <= __sl@.len(),\nensures __hit matches Some(__h) ==> __h < __sl@.len(),\ndecreases __sl@.len() - __j,\n'
+                after = (f'{{ let __sl = &{E}; let mut __j: usize = 0; let mut __hit: Option<usize> = None; loop\n{cl}{{ if __j >= __sl.len() {{ break; }} let {C} = &&__sl[__j]; '
                          f'if {PRED} {{ __hit = Some(__j); break; }} __j += 1; }} __hit }}')
                 self.clauses += 4
-                self.ed.replace(rf.ct(ci).start, rf.ct(mp).end, after)
+                self.ed.replace(rf.ct(st).start, rf.ct(mp).end, after)
                 self.desugared.append({'rule': 'R19', 'before': ' '.join(before.split()), 'after': ' '.join(after.replace(cl, '').split())})
                 found += 1
                 ci = mp + 1
